@@ -237,8 +237,12 @@ def handle : Handler := fun j => do
   | "http" =>
     let tbl ← getTable j
     let keep ← getKeep j
-    let ps ← getNat j "ps"
-    let (col, order, ek) := endpointMode (← getStr j "endpoint")
+    let ps0 ← getNat j "ps"
+    let epName ← getStr j "endpoint"
+    -- `bunpaginate.GetPageSize`: a page size above the API version's maximum (v1: 1000, v2: 100) is replaced by that maximum
+    let psMax := if epName.startsWith "v1" then 1000 else 100
+    let ps := if ps0 > psMax then psMax else ps0
+    let (col, order, ek) := endpointMode epName
     match ← getFilter j with
     | none => pure (Json.mkObj [("steps", Json.arr #[Json.mkObj [("status", toJson (400 : Nat))]]), ("prevs", Json.arr #[])])
     | some qb =>
